@@ -86,7 +86,7 @@ class CBuild:
         """extra TU whose constants are the struct layout as the C compiler sees it"""
         L = [f'#include "{self.main}_bp.h"', "#include <stddef.h>"]
         for mi, (msg, chain) in enumerate(msgs):
-            sn = c_struct_name(chain)
+            sn = getattr(self, "name_prefix", "") + c_struct_name(chain)
             L.append(f"const unsigned long bpv_sizeof_{mi} = sizeof(struct {sn});")
             if sn in self.bytes_macro:
                 L.append(f"const unsigned long bpv_bytes_{mi} = {self.bytes_macro[sn][0]};")
@@ -153,11 +153,11 @@ def lib_ir(olevel: str, target: str, defines: Sequence[str], outd: str) -> str:
 class CMsg:
     """one message in one IR configuration: struct layout, leaf access, entry points"""
 
-    def __init__(self, mods: List[Module], consts: Dict[str, int], mi: int, msg: Message, chain: List[str]):
+    def __init__(self, mods: List[Module], consts: Dict[str, int], mi: int, msg: Message, chain: List[str], prefix: str = ""):
         self.mods = mods
         self.mi = mi
         self.msg = msg
-        self.name = c_struct_name(chain)
+        self.name = prefix + c_struct_name(chain)
         self.lay = layout(msg)
         try:
             self.sizeof = consts[f"bpv_sizeof_{mi}"]
